@@ -79,6 +79,33 @@ fn references() -> &'static Result<Vec<String>, String> {
     })
 }
 
+/// alphabet of the pair histories: quarter arcs of every size and quadrant, rounded tabs, the history alphabet
+pub fn pair_alphabet() -> Vec<String> {
+    let mut v: Vec<String> = shapes::circle_parts_family().into_iter().enumerate().filter(|(i, _)| i % 8 < 4).map(|(_, d)| d).collect();
+    for h in 1..=4 {
+        let bars: Vec<String> = (0..h).map(|_| "|     |".to_string()).collect();
+        v.push(format!(" .---.\n/     \\\n{}", bars.join("\n")));
+        v.push(format!(".-----.\n{}", bars.join("\n")));
+    }
+    for (inp, _s) in alphabet() {
+        v.push(inp);
+    }
+    v
+}
+
+static PAIR_REFS: OnceLock<Result<Vec<String>, String>> = OnceLock::new();
+
+fn pair_references() -> &'static Result<Vec<String>, String> {
+    PAIR_REFS.get_or_init(|| {
+        let mut v = vec![];
+        for m in pair_alphabet() {
+            let o = fresh_process(&[(m, Sett::bare())])?;
+            v.push(o[0].clone());
+        }
+        Ok(v)
+    })
+}
+
 // ---- the order seam ---------------------------------------------------------
 
 thread_local! {
@@ -227,6 +254,11 @@ impl Prop for C07 {
         } else {
             vec![(0, 3), (1, 3), (2, 2), (3, 3), (4, 3), (5, 2), (6, 2), (7, 3)]
         };
+        v.push(Scope::new("pair-histories", "every ordered pair (X, Y) of a 100-drawing alphabet (the quadrants of every catalogue circle, rounded tabs, the history alphabet): Y converted immediately after X in one process, compared with Y alone in a fresh process", |f| {
+            for x in 0..pair_alphabet().len() {
+                f(Case::sn("pairs", vec![x as i64]));
+            }
+        }));
         v.push(Scope::new("free-running", "supplementary (a sample of machine schedules, can only add violations): 6 free OS threads convert tagged and plain drawings at different scales 30 times each, compared with the sequential result", |f| {
             for round in 0..4 {
                 f(Case::sn("free", vec![round]));
@@ -339,6 +371,43 @@ impl Prop for C07 {
                     }
                 }
                 cx.outcome(&("order", p));
+            }
+            "pair-histories" => {
+                let z = pair_alphabet();
+                let refs = match pair_references() {
+                    Ok(r) => r,
+                    Err(e) => {
+                        cx.machinery.push(format!("cannot compute fresh references: {}", e));
+                        return;
+                    }
+                };
+                let x = case.n[0] as usize;
+                let b = Sett::bare();
+                let mut seq: Vec<(String, Sett)> = vec![];
+                for y in 0..z.len() {
+                    seq.push((z[x].clone(), b.clone()));
+                    seq.push((z[y].clone(), b.clone()));
+                }
+                let outs = match fresh_process(&seq) {
+                    Ok(o) => o,
+                    Err(e) => {
+                        cx.machinery.push(e);
+                        return;
+                    }
+                };
+                cx.conversions += seq.len() as u64;
+                for y in 0..z.len() {
+                    cx.compared();
+                    if outs[2 * y + 1] != refs[y] || outs[2 * y] != refs[x] {
+                        cx.fail_case(
+                            "history-dependent",
+                            format!("converting {:?} right after {:?} (pair #{} of one process) gives a different result than converting it alone in a fresh process", z[y], z[x], y),
+                            Case::sn("pairs", vec![x as i64]),
+                        );
+                        return;
+                    }
+                }
+                cx.outcome(&("pairs", x));
             }
             "free-running" => {
                 let inputs: Vec<String> = vec![
